@@ -371,6 +371,17 @@ def container_method(ex, recv: VRef, name, args, kwargs, st):
                 else:
                     out.append(Res("val", default, bs))
             return out
+        if name == "setdefault" and len(args) == 2:
+            # d.setdefault(k, v): the existing value if k is a key, else v is stored and returned
+            key = z_int(args[0])
+            out = []
+            for has, bs in ex.split(st, st.dict_has(r, key)):
+                if has:
+                    out.append(Res("val", ex._elem(bs.dict_val(r, key), vk, vcls, bs), bs))
+                else:
+                    bs.dict_store(r, z3.Store(bs.dict_dom(r), key, z3.BoolVal(True)), z3.Store(bs.dict_vals(r), key, z_int(args[1])))
+                    out.append(Res("val", args[1], bs))
+            return out
         if name == "pop":
             key = z_int(args[0])
             out = []
